@@ -39,6 +39,9 @@ SAMPLES = {
     "EncryptedMessage-out": ("axolotl.protocolentities.message_encrypted.EncryptedMessageProtocolEntity", "out",
                              lambda C: C([_cls("axolotl.protocolentities.enc.EncProtocolEntity")("msg", 2, b"\x05\x06", None)], "text",
                                          _meta(id="ABC1", recipient=J)), ()),
+    "EncryptedMessage-out-participant": ("axolotl.protocolentities.message_encrypted.EncryptedMessageProtocolEntity", "out",
+                                         lambda C: C([_cls("axolotl.protocolentities.enc.EncProtocolEntity")("pkmsg", 2, b"\x05\x06", None)], "text",
+                                                     _meta(id="ABC1", recipient=G, participant=J2)), ()),
     "IdentityChangeNotification": ("axolotl.protocolentities.notification_encrypt_identitychange.IdentityChangeEncryptNotification", "in",
                                    lambda C: C("1400000000", "id1", "nn", "0"), ("from",)),
     "RetryIncomingReceipt": ("axolotl.protocolentities.receipt_incoming_retry.RetryIncomingReceiptProtocolEntity", "in",
@@ -173,12 +176,18 @@ class _SymArgs(object):
         return self.C(*[self._v(x) for x in a], **{kk: self._v(v, kk) for kk, v in k.items()})
 
 
+# what an outgoing stanza must carry for the addressing given to the constructor (envelopes re-sent to one group member after a retry)
+EXPECT_ATTRS = {"EncryptedMessage-out": {"to": J, "id": "ABC1"}, "EncryptedMessage-out-participant": {"to": G, "participant": J2, "id": "ABC1"}}
+
+
 def h_sample_out(ctx, name):
     path, role, make, keep = SAMPLES[name]
     C = _cls(path)
     ent = make(_SymArgs(ctx, C))
     out = ent.toProtocolTreeNode()
     obs = SC.codec_contract_obs("codec", out)
+    for k, v in EXPECT_ATTRS.get(name, {}).items():
+        obs.append(("addressing given to the constructor is on the stanza: @%s" % k, SC.val_eq(hooks.dict_get(out.attributes, k), v)))
     if not H.sym(ctx):
         obs += SC.real_codec_roundtrip_obs("wire", out)
     return obs
